@@ -12,7 +12,7 @@ Import ListNotations.
 Record obs := { o_imports : list import_line; o_expr : option pyexpr; o_exec : option value; o_equal : bool }.
 Definition ccase := (world * value * obs)%type.
 
-Definition line_eqb (a b : import_line) : bool := str_eqb (fst a) (fst b) && str_eqb (snd a) (snd b).
+Definition line_eqb (a b : import_line) : bool := str_eqb (fst a) (fst b) && ostr_eqb (snd a) (snd b).
 
 Fixpoint pyexpr_eqb (a b : pyexpr) {struct a} : bool :=
   match a with
@@ -140,7 +140,6 @@ Definition explained (W : world) (v : value) (o : obs) (clause : bool) : bool :=
   negb (failed o && negb (roundtrip W v) && negb clause).
 Definition class_imports (c : ccase) : bool := let '(W, v, o) := c in explained W v o (g_imports W v).
 Definition class_init (c : ccase) : bool := let '(W, v, o) := c in explained W v o (g_init W v).
-Definition class_std (c : ccase) : bool := let '(W, v, o) := c in explained W v o (g_std W v).
 
 (* a failure that no clause explains although the guard is false cannot happen:
    guard = conjunction of the clauses; kept as a separate check for the evidence *)
